@@ -43,19 +43,6 @@ Qed.
 Lemma ltb_lt' : forall a b, (a <? b) = true -> a < b.
 Proof. intros. apply Nat.ltb_lt. auto. Qed.
 
-(** The step-inversion tactic: one goal per leaf branch of [step] (including the branches of [start_op],
-    [after_load] and [chk]); the hypotheses record the program point ([Hpc]), that the thread exists ([Hlt]) and
-    every test that selected the branch. *)
-Ltac step_inv H :=
-  unfold step in H;
-  match type of H with context[negb (?t <? ?n)] => destruct (t <? n) eqn:Hlt; cbn [negb] in H; [|discriminate H] end;
-  match type of H with context[th_pc ?th] => destruct (th_pc th) eqn:Hpc end;
-  unfold start_op, after_load, chk in H;
-  repeat match type of H with
-         | context[match ?x with _ => _ end] => destruct x eqn:?
-         end;
-  try discriminate H; inversion H; subst; clear H.
-
 Definition pcof (s : state) (t : tid) : pc := th_pc (st_thr s t).
 
 (** normal form of the successor state: setters and [upd] only *)
@@ -70,6 +57,24 @@ Ltac norm :=
 
 (** ... and the moving thread's own entry looked up *)
 Ltac self := repeat (progress (rewrite ?upd_same in *; norm)).
+
+(** The step-inversion tactic: one goal per leaf branch of [step] (including the branches of [start_op],
+    [after_load] and [chk]); the hypotheses record the program point ([Hpc]), that the thread exists ([Hlt]) and
+    every test that selected the branch. *)
+Definition SI (P : Prop) : Prop := P.
+Ltac step_inv H :=
+  unfold step in H;
+  match type of H with context[negb (?t <? ?n)] => destruct (t <? n) eqn:Hlt; cbn [negb] in H; [|discriminate H] end;
+  match type of H with context[th_pc ?th] => destruct (th_pc th) eqn:Hpc end;
+  unfold start_op, after_load, chk in H;
+  repeat match type of H with
+         | context[match ?x with _ => _ end] =>
+             let E := fresh "Heq" in destruct x eqn:E; match type of E with ?T => change (SI T) in E end
+         end;
+  try discriminate H; inversion H; subst; clear H;
+  self;
+  (* the successor state re-introduces the scrutinees: put them in the destructed form everywhere *)
+  repeat match goal with E : SI ?T |- _ => change T in E; try rewrite E in * end.
 
 (** case split on whether thread [t'] is the one that moved *)
 Ltac thr t' t :=
@@ -97,6 +102,19 @@ Lemma step_log_mono : forall W s t s' e, step W s t = Some s' -> In e (st_log s)
 Proof.
   intros. destruct (step_log _ _ _ _ H) as [l ->]. apply in_or_app. auto.
 Qed.
+
+Lemma upd_eq : forall A (f : nat -> A) k v x, upd f k v x = (if x =? k then v else f x).
+Proof. reflexivity. Qed.
+
+(** case split on every [upd f k v x] in sight *)
+Ltac upd_cases :=
+  repeat first
+    [ progress (rewrite ?upd_same in * )
+    | match goal with
+      | Hn : ?x <> ?k |- _ => progress (rewrite ?(upd_other _ _ k _ x Hn) in * )
+      | H : context[upd _ ?k _ ?x] |- _ => destruct (Nat.eq_dec x k); [subst|]
+      | |- context[upd _ ?k _ ?x] => destruct (Nat.eq_dec x k); [subst|]
+      end ].
 
 Lemma in_tl : forall (A : Type) (x : A) l, In x (tl l) -> In x l.
 Proof. intros A x [|y l]; simpl; auto. Qed.
